@@ -24,6 +24,74 @@ from .linear import (C, V, add, scale, le, lt, ge, gt, eq, neg, feasible, entail
                      cval, variables)
 
 
+def hoist_walrus(fn):
+    """`if (x := e) ...:` and `while (x := e) ...:` with the assignment expression evaluated unconditionally at the start of the test
+    become `x = e` followed by the test on x (for `while`: `while True: x = e; if not test: break; ...`): same evaluation order,
+    and the interpreter sees the read / the call as a statement of its own.  Returns a rewritten copy (or fn itself)."""
+    import copy
+
+    def first_walrus(test):
+        # the NamedExpr reached first by left-to-right evaluation without passing a short-circuit or conditional
+        n = test
+        while True:
+            if isinstance(n, ast.NamedExpr) and isinstance(n.target, ast.Name):
+                return n
+            if isinstance(n, ast.Compare):
+                n = n.left
+            elif isinstance(n, ast.UnaryOp):
+                n = n.operand
+            elif isinstance(n, ast.BoolOp):
+                n = n.values[0]
+            else:
+                return None
+    if not any(isinstance(x, ast.NamedExpr) for x in ast.walk(fn)):
+        return fn
+
+    class R(ast.NodeTransformer):
+        def visit_FunctionDef(self, n):
+            if n is not root:
+                return n
+            return self.generic_visit(n)
+
+        def _split(self, node):
+            w = first_walrus(node.test)
+            if w is None or any(isinstance(x, ast.NamedExpr) for x in ast.walk(w.value)):
+                return None
+            assign = ast.copy_location(ast.Assign(targets=[ast.Name(id=w.target.id, ctx=ast.Store())], value=w.value), node)
+
+            class Sub(ast.NodeTransformer):
+                def visit_NamedExpr(self, m):
+                    if m is w:
+                        return ast.copy_location(ast.Name(id=w.target.id, ctx=ast.Load()), m)
+                    return self.generic_visit(m)
+            new_test = Sub().visit(node.test)
+            return assign, new_test
+
+        def visit_If(self, n):
+            n = self.generic_visit(n)
+            r = self._split(n)
+            if r is None:
+                return n
+            assign, test = r
+            n2 = ast.copy_location(ast.If(test=test, body=n.body, orelse=n.orelse), n)
+            return [assign, n2]
+
+        def visit_While(self, n):
+            n = self.generic_visit(n)
+            if n.orelse:
+                return n
+            r = self._split(n)
+            if r is None:
+                return n
+            assign, test = r
+            guard = ast.copy_location(ast.If(test=ast.UnaryOp(op=ast.Not(), operand=test), body=[ast.copy_location(ast.Break(), n)], orelse=[]), n)
+            return ast.copy_location(ast.While(test=ast.Constant(value=True), body=[assign, guard] + n.body, orelse=[]), n)
+    root = copy.deepcopy(fn)
+    out = R().visit(root)
+    ast.fix_missing_locations(out)
+    return out
+
+
 class Unsupported(Exception):
     """construct outside the modelled subset on a relevant path -> INCONCLUSIVE (exit 2)"""
 
@@ -116,7 +184,7 @@ class Interp:
     def __init__(s, cls, filename='?'):
         s.cls = cls
         s.filename = filename
-        s.methods = {n.name: n for n in cls.body if isinstance(n, (ast.FunctionDef,))}
+        s.methods = {n.name: hoist_walrus(n) for n in cls.body if isinstance(n, (ast.FunctionDef,))}
         s.consts = {}
         for n in cls.body:
             if isinstance(n, ast.Assign) and isinstance(n.value, ast.Constant) and isinstance(n.value.value, int):
@@ -207,6 +275,61 @@ class Interp:
                     tv = ('tuple', vals, tid)
                 out.append((q, tv))
             return out
+        if isinstance(n, ast.NamedExpr) and isinstance(n.target, ast.Name):
+            out = []
+            for q, v in s.ev(n.value, p):
+                q.locs[n.target.id] = v            # (x := e) binds the local
+                out.append((q, v))
+            return out
+        if isinstance(n, (ast.ListComp, ast.GeneratorExp)) and all(not g.ifs and not g.is_async and isinstance(g.target, ast.Name) for g in n.generators):
+            # a comprehension over literal sequences of values (the table of legal modes ...): unrolled
+            def expand(paths, gens):
+                if not gens:
+                    res = []
+                    for q, acc in paths:
+                        for r, v in s.ev(n.elt, q):
+                            res.append((r, acc + [v]))
+                    return res
+                g = gens[0]
+                cur = []
+                for q, acc in paths:
+                    for r, itv in s.ev(g.iter, q):
+                        if itv[0] != 'tuple' or len(itv[1]) > 16:
+                            raise Unsupported('comprehension over %s at %s' % (itv[0], s.loc(n)))
+                        sub = [(r, acc)]
+                        for el in itv[1]:
+                            nxt = []
+                            for r2, acc2 in sub:
+                                r2.locs[g.target.id] = el
+                                nxt += expand([(r2, acc2)], gens[1:])
+                            sub = nxt
+                        cur += sub
+                return cur
+            saved = {g.target.id: p.locs.get(g.target.id) for g in n.generators}
+            out = []
+            for q, vals in expand([(p, [])], list(n.generators)):
+                for k_, v_ in saved.items():
+                    if v_ is None:
+                        q.locs.pop(k_, None)
+                    else:
+                        q.locs[k_] = v_
+                out.append((q, ('tuple', vals)))
+            return out
+        if isinstance(n, ast.Dict):
+            # a literal table keyed by constants (state -> handler ...): ('dict', [(int key, value)])
+            cur = [(p, [])]
+            for k_, v_ in zip(n.keys, n.values):
+                if k_ is None:
+                    raise Unsupported('dict unpacking at %s' % s.loc(n))
+                nxt = []
+                for q, items in cur:
+                    for r, kv in s.ev(k_, q):
+                        if kv[0] != 'lin' or not is_const(kv[1]):
+                            raise Unsupported('dict key %s is not a constant at %s' % (ast.unparse(k_), s.loc(n)))
+                        for r2, vv in s.ev(v_, r):
+                            nxt.append((r2, items + [(cval(kv[1]), vv)]))
+                cur = nxt
+            return [(q, ('dict', items)) for q, items in cur]
         if isinstance(n, ast.Subscript):
             return s.subscript(n, p)
         if isinstance(n, ast.Call):
@@ -296,8 +419,46 @@ class Interp:
                     raise Unsupported('tuple index at %s' % s.loc(n))
             elif base[0] == 'list':
                 raise Unsupported('element access on the frame list %s at %s' % (ast.unparse(n), s.loc(n)))
+            elif base[0] == 'dict':
+                for r, kv in s.ev(n.slice, q):
+                    out += s.dict_lookup(n, r, base, kv, None)
             else:
                 out.append((q, ('opaque', ast.unparse(n))))
+        return out
+
+    def dict_lookup(s, n, p, d, kv, default):
+        """value of a literal table for a key: decided when the key is a constant on this path, else split on the table's keys"""
+        if kv[0] != 'lin':
+            raise Unsupported('dict key %s at %s' % (kv[0], s.loc(n)))
+        if is_const(kv[1]):
+            k = cval(kv[1])
+            for kk, vv in d[1]:
+                if kk == k:
+                    return [(p, vv)]
+            if default is None:
+                raise Unsupported('key %r missing from the literal table at %s (KeyError)' % (k, s.loc(n)))
+            return [(p, default)]
+        out = []
+        for kk, vv in d[1]:
+            q = p.clone()
+            q.assume([eq(kv[1], C(kk))])
+            if feasible(q.cons):
+                out.append((q, vv))
+        if default is not None:
+            # values outside the table: conservatively one more path with the default, constrained to differ from each key
+            # through strict order against the sorted keys (gaps and both ends)
+            keys = sorted(kk for kk, _ in d[1])
+            bounds = [(None, keys[0])] + [(a_, b_) for a_, b_ in zip(keys, keys[1:])] + [(keys[-1], None)]
+            for lo, hi in bounds:
+                q = p.clone()
+                cs = []
+                if lo is not None:
+                    cs.append(gt(kv[1], C(lo)))
+                if hi is not None:
+                    cs.append(lt(kv[1], C(hi)))
+                q.assume(cs)
+                if feasible(q.cons):
+                    out.append((q, default))
         return out
 
     def list_slice(s, n, p, base):
@@ -342,6 +503,8 @@ class Interp:
     def call(s, n, p):
         f = n.func
         if isinstance(f, ast.Name):
+            if f.id in p.locs and p.locs[f.id][0] in ('method', 'validator'):
+                return s.call_value(n, p, p.locs[f.id])       # a bound method / the validator held in a local
             return s.call_builtin(n, p, f.id)
         if isinstance(f, ast.Attribute):
             out = []
@@ -434,6 +597,13 @@ class Interp:
     def call_method(s, n, p, recv, name):
         if recv[0] == 'list':
             return s.list_method(n, p, recv, name)
+        if recv[0] == 'dict':
+            if name == 'get' and 1 <= len(n.args) <= 2 and not n.keywords:
+                out = []
+                for q, vals in s.evargs(n.args, p):
+                    out += s.dict_lookup(n, q, recv, vals[0], vals[1] if len(vals) == 2 else NONE)
+                return out
+            raise Unsupported('dict method %s at %s' % (name, s.loc(n)))
         if recv[0] == 'source':
             if name == 'read':
                 return s.do_read(n, p)
@@ -930,6 +1100,11 @@ class Interp:
             raise Unsupported('del statement at %s' % s.loc(st))
         if isinstance(st, (ast.Import, ast.ImportFrom, ast.Global, ast.Nonlocal)):
             return [(p, None)]
+        if isinstance(st, ast.Match):
+            from .symex import Sym
+            chain = Sym._match_as_if(None, st)
+            if chain is not None:
+                return s.stmt(chain, p)
         raise Unsupported('%s at %s: %s' % (type(st).__name__, s.loc(st), ast.unparse(st)[:70]))
 
     def deliver(s, p, v, node):
